@@ -1,41 +1,939 @@
 //go:build verif
 
+// vh-c02: correspondence + monitor harness for property C02 (QPS reject-mode flow rule admits
+// exactly up to the threshold per bucket-aligned statistic window; k-bound under concurrency).
 package main
 
 import (
+	"encoding/json"
 	"fmt"
+	"math"
+	"os"
+	"strconv"
+	"strings"
 
 	sentinel "github.com/alibaba/sentinel-golang/api"
+	"github.com/alibaba/sentinel-golang/core/base"
+	"github.com/alibaba/sentinel-golang/core/config"
 	"github.com/alibaba/sentinel-golang/core/flow"
+	"github.com/alibaba/sentinel-golang/core/stat"
+	sbase "github.com/alibaba/sentinel-golang/core/stat/base"
 
+	"vh/internal/cli"
+	"vh/internal/emit"
 	"vh/internal/env"
+	"vh/internal/rng"
+	"vh/internal/sched"
 	"vh/internal/vclock"
 )
 
+// ---- inputs ----
+
+type ruleT struct {
+	Thr   float64 `json:"-"`
+	ThrS  string  `json:"thr"` // printed exactly (JSON has no NaN/Inf)
+	Itv   uint32  `json:"itv"`
+	Assoc bool    `json:"assoc,omitempty"`
+	Ref   int     `json:"ref,omitempty"`
+}
+
+type opT struct {
+	Kind  string `json:"k"` // enter | exit
+	T     uint64 `json:"t"`
+	Res   int    `json:"res"`
+	Batch uint32 `json:"b"`
+	Of    int    `json:"of,omitempty"` // exit: index of the enter op
+}
+
+type seqCase struct {
+	ID    int       `json:"id"`
+	T0    uint64    `json:"t0"`
+	NRes  int       `json:"nres"`  // resources 0..NRes-1 (some may have no rule)
+	Rules [][]ruleT `json:"rules"` // per resource
+	Ops   []opT     `json:"ops"`
+	TF    uint64    `json:"tf"`
+}
+
+type obsT struct {
+	Kind string `json:"kind"` // pass | block | none
+	Idx  int    `json:"idx,omitempty"`
+	Cur  int64  `json:"cur,omitempty"`
+	Type string `json:"type,omitempty"`
+}
+
+type ctrlObs struct {
+	Idx   int       `json:"idx"`
+	Own   bool      `json:"own"`
+	N     uint32    `json:"n,omitempty"`
+	Itv   uint32    `json:"itv,omitempty"`
+	Slots [][]int64 `json:"slots,omitempty"`
+}
+
+type finT struct {
+	Res   int       `json:"res"`
+	Ctrls []ctrlObs `json:"ctrls"`
+	Node  bool      `json:"node"`
+	Pass  int64     `json:"pass"`
+	Block int64     `json:"block"`
+	Conc  int64     `json:"conc"`
+}
+
+func fstr(f float64) string { return strconv.FormatFloat(f, 'g', -1, 64) }
+
+var itvChoices = []int64{0, 0, 0, 1000, 2000, 2500, 250, 300, 750, 20000, 1500, 3000, 500, 5000, 10000, 1, 7}
+var thrChoices = []float64{0, 0, 0.5, 0.999, 1, 1, 1.5, 2, 2, 2.999, 3, 3, 4, 5, 7.25, 10, 20, 50, 1000000, 4294967296.5, 1e15}
+
+func genRule(r *rng.R, nres, own int) ruleT {
+	var x ruleT
+	x.Thr = thrChoices[r.Intn(len(thrChoices))]
+	switch r.Intn(60) {
+	case 0:
+		x.Thr = -1 // invalid: ignored by the rule manager
+	case 1:
+		x.Thr = math.Inf(1)
+	case 2:
+		x.Thr = math.NaN()
+	case 3:
+		x.Thr = 5e-324
+	case 4:
+		x.Thr = -0.0
+	}
+	x.ThrS = fstr(x.Thr)
+	x.Itv = uint32(itvChoices[r.Intn(len(itvChoices))])
+	if r.Chance(1, 4) {
+		x.Assoc = true
+		x.Ref = r.Intn(nres) // may be the own resource
+	}
+	return x
+}
+
+func genSeq(r *rng.R, id int) seqCase {
+	c := seqCase{ID: id}
+	switch r.Intn(14) {
+	case 0:
+		c.T0 = uint64(r.PickI(1, 2, 400, 499, 500, 999, 1000, 5000, 9999))
+	default:
+		c.T0 = 1700000000000 + uint64(r.Range(0, 20000))
+	}
+	c.NRes = 1 + r.Intn(3)
+	ruled := 1 + r.Intn(c.NRes) // resources 0..ruled-1 carry rules
+	for i := 0; i < c.NRes; i++ {
+		var rs []ruleT
+		if i < ruled {
+			n := 1 + r.Intn(3)
+			for j := 0; j < n; j++ {
+				rs = append(rs, genRule(r, c.NRes, i))
+			}
+		}
+		c.Rules = append(c.Rules, rs)
+	}
+	// the bucket lengths in play, for boundary-directed time steps
+	steps := []uint64{500, 1000, 10000}
+	for _, rs := range c.Rules {
+		for _, x := range rs {
+			if x.Itv > 0 {
+				steps = append(steps, uint64(x.Itv))
+			}
+		}
+	}
+	now := c.T0
+	nops := 8 + r.Intn(38)
+	var live []int
+	for i := 0; i < nops; i++ {
+		// advance time
+		switch x := r.Intn(20); {
+		case x < 6: // same instant
+		case x < 10:
+			now += uint64(r.Range(1, 60))
+		case x < 14: // to a bucket / window boundary -1, 0, +1
+			s := steps[r.Intn(len(steps))]
+			nb := now - now%s + s
+			nb = nb - 1 + uint64(r.Intn(3))
+			if nb > now {
+				now = nb
+			}
+		case x < 16:
+			now += steps[r.Intn(len(steps))]
+		case x < 18:
+			now += uint64(r.Range(100, 1200))
+		case x < 19: // idle gap longer than the global array
+			now += uint64(r.Range(10000, 26000))
+		default:
+			now += uint64(r.Range(400, 600))
+		}
+		if len(live) > 0 && r.Chance(1, 4) {
+			k := r.Intn(len(live))
+			of := live[k]
+			live = append(live[:k], live[k+1:]...)
+			c.Ops = append(c.Ops, opT{Kind: "exit", T: now, Res: c.Ops[of].Res, Batch: c.Ops[of].Batch, Of: of})
+			continue
+		}
+		res := r.Intn(c.NRes)
+		if r.Chance(1, 2) {
+			res = 0
+		}
+		var b uint32
+		switch x := r.Intn(20); {
+		case x < 11:
+			b = 1
+		case x < 13:
+			b = 2
+		case x < 14:
+			b = 0
+		case x < 15:
+			b = 3
+		case x < 18: // at / just above a threshold of the resource
+			if rs := c.Rules[res]; len(rs) > 0 {
+				t := rs[r.Intn(len(rs))].Thr
+				if t >= 0 && t < 1e6 {
+					b = uint32(math.Floor(t)) + uint32(r.Intn(2))
+				} else {
+					b = 1
+				}
+			} else {
+				b = 1
+			}
+		case x < 19:
+			b = uint32(r.PickI(1000, 4294967295, 65536))
+		default:
+			b = uint32(r.Range(0, 6))
+		}
+		c.Ops = append(c.Ops, opT{Kind: "enter", T: now, Res: res, Batch: b})
+		live = append(live, i) // whether it was admitted is known only at run time
+	}
+	c.TF = now + uint64(r.PickI(0, 0, 1, 499, 500, 1000, 9999, 10000, 30000))
+	return c
+}
+
+func resName(id, res int) string { return "c02-" + strconv.Itoa(id) + "-" + strconv.Itoa(res) }
+
+func mkRules(id int, rules [][]ruleT) []*flow.Rule {
+	var out []*flow.Rule
+	for ri, rs := range rules {
+		for j, x := range rs {
+			fr := &flow.Rule{ID: strconv.Itoa(j), Resource: resName(id, ri), TokenCalculateStrategy: flow.Direct,
+				ControlBehavior: flow.Reject, Threshold: x.Thr, StatIntervalInMs: x.Itv}
+			if x.Assoc {
+				fr.RelationStrategy = flow.AssociatedResource
+				fr.RefResource = resName(id, x.Ref)
+			}
+			out = append(out, fr)
+		}
+	}
+	return out
+}
+
+func observeBlock(b *base.BlockError) obsT {
+	o := obsT{Kind: "block", Idx: -1, Cur: -1, Type: b.BlockType().String()}
+	if fr, ok := b.TriggeredRule().(*flow.Rule); ok && fr != nil {
+		o.Idx, _ = strconv.Atoi(fr.ID)
+	}
+	if v, ok := b.TriggeredValue().(float64); ok && v == math.Trunc(v) && math.Abs(v) < 1e18 {
+		o.Cur = int64(v)
+	}
+	return o
+}
+
+func finalState(id, nres int) []finT {
+	var out []finT
+	for ri := 0; ri < nres; ri++ {
+		f := finT{Res: ri, Ctrls: []ctrlObs{}}
+		for _, vc := range flow.VerifRuleControllers(resName(id, ri)) {
+			co := ctrlObs{}
+			co.Idx, _ = strconv.Atoi(vc.Rule.ID)
+			if la, ok := vc.Stat.(*sbase.BucketLeapArray); ok && la != nil {
+				co.Own = true
+				co.N = la.SampleCount()
+				co.Itv = la.IntervalInMs()
+				co.Slots = la.VerifSlots()
+			}
+			f.Ctrls = append(f.Ctrls, co)
+		}
+		if n := stat.GetResourceNode(resName(id, ri)); n != nil {
+			f.Node = true
+			f.Pass = n.GetSum(base.MetricEventPass)
+			f.Block = n.GetSum(base.MetricEventBlock)
+			f.Conc = int64(n.CurrentConcurrency())
+		}
+		out = append(out, f)
+	}
+	return out
+}
+
+// nodePass reads the pass sum of the resource's default view through the public node API.
+func nodePass(id, res int) (int64, bool) {
+	if n := stat.GetResourceNode(resName(id, res)); n != nil {
+		return n.GetSum(base.MetricEventPass), true
+	}
+	return 0, false
+}
+
+func runSeq(c seqCase, clk *vclock.Clock) (obs []obsT, nodeAfter []int64, fin []finT) {
+	clk.SetMs(c.T0)
+	if _, err := flow.LoadRules(mkRules(c.ID, c.Rules)); err != nil {
+		panic(err)
+	}
+	entries := make([]*base.SentinelEntry, len(c.Ops))
+	for i, o := range c.Ops {
+		clk.SetMs(o.T)
+		switch o.Kind {
+		case "enter":
+			e, b := sentinel.Entry(resName(c.ID, o.Res), sentinel.WithBatchCount(o.Batch))
+			if b != nil {
+				obs = append(obs, observeBlock(b))
+			} else {
+				entries[i] = e
+				obs = append(obs, obsT{Kind: "pass"})
+			}
+		case "exit":
+			if e := entries[o.Of]; e != nil {
+				e.Exit()
+				entries[o.Of] = nil
+			}
+			obs = append(obs, obsT{Kind: "none"})
+		}
+		v, _ := nodePass(c.ID, o.Res)
+		nodeAfter = append(nodeAfter, v)
+	}
+	clk.SetMs(c.TF)
+	fin = finalState(c.ID, c.NRes)
+	for _, e := range entries {
+		if e != nil {
+			e.Exit()
+		}
+	}
+	return
+}
+
+// ---- the monitor: the property stated on the implementation's own trace ----
+
+type admT struct {
+	t   uint64
+	res int
+	b   uint64
+}
+
+// geometry of the statistic a rule reads, derived from the documented behaviour of
+// StatIntervalInMs: interval (0 = the default 1 s metric), and the length of the buckets its
+// window is aligned to (the shared per-resource array's 500 ms buckets when the interval tiles
+// the shared 10 s array in whole buckets; otherwise an independent window)
+func ruleGeom(itv uint32) (interval, bucket uint64, independent bool) {
+	const gItv, gBl, dItv = 10000, 500, 1000
+	if itv == 0 || itv == dItv {
+		return dItv, gBl, false
+	}
+	I := uint64(itv)
+	if I <= gItv && I%gBl == 0 && gItv%I == 0 {
+		return I, gBl, false
+	}
+	if I <= gItv && I >= gBl && I%gBl == 0 {
+		return I, gBl, true // several 500 ms buckets of its own
+	}
+	return I, I, true // a single bucket
+}
+
+func ruleInForce(x ruleT) bool { return !(x.Thr < 0) }
+
+func winSum(adm []admT, res int, lo, hi uint64) uint64 {
+	var s uint64
+	for _, a := range adm {
+		if a.res == res && a.t >= lo && a.t < hi {
+			s += a.b
+		}
+	}
+	return s
+}
+
+// window [lo,hi) the rule reads at time t (saturating at zero like the subtraction it stands for)
+func window(x ruleT, t uint64) (lo, hi uint64) {
+	I, bl, _ := ruleGeom(x.Itv)
+	hi = t - t%bl + bl
+	if hi > I {
+		lo = hi - I
+	}
+	return
+}
+
+func target(x ruleT, own int) int {
+	if x.Assoc {
+		return x.Ref
+	}
+	return own
+}
+
+// exceeds reports sum + b > T in exact arithmetic (sum + b < 2^53 here, so the conversion is exact)
+func exceeds(sum, b uint64, thr float64) bool { return float64(sum+b) > thr }
+
+type monStats struct {
+	pass, block, bucketCross, cycleCross int
+	trigIdx                              map[int]int
+}
+
+func monitorSeq(c seqCase, obs []obsT, nodeAfter []int64, fin []finT, rep *emit.Report) (nontrivial bool, st monStats) {
+	st.trigIdx = map[int]int{}
+	var adm []admT
+	var prevT uint64 = c.T0
+	for i, o := range c.Ops {
+		if o.T/500 != prevT/500 {
+			st.bucketCross++
+		}
+		if o.T-prevT >= 10000 {
+			st.cycleCross++
+		}
+		prevT = o.T
+		if o.Kind != "enter" {
+			continue
+		}
+		// expected decision from the ledger of admitted tokens
+		first, firstSum := -1, uint64(0)
+		for j, x := range c.Rules[o.Res] {
+			if !ruleInForce(x) || math.IsNaN(x.Thr) {
+				continue
+			}
+			lo, hi := window(x, o.T)
+			s := winSum(adm, target(x, o.Res), lo, hi)
+			if exceeds(s, uint64(o.Batch), x.Thr) {
+				first, firstSum = j, s
+				break
+			}
+		}
+		got := obs[i].Kind == "pass"
+		if got && first >= 0 {
+			rep.Fail(c.ID, "C02_no_excess", "admitted-over-threshold", fmt.Sprintf("op %d t=%d res=%d batch=%d: admitted although rule %d has %d tokens in its window (threshold %s)", i, o.T, o.Res, o.Batch, first, firstSum, c.Rules[o.Res][first].ThrS), c)
+			return
+		}
+		if !got && first < 0 {
+			rep.Fail(c.ID, "C02_no_spurious_block", "spurious-rejection", fmt.Sprintf("op %d t=%d res=%d batch=%d: rejected by rule %d (reported sum %d) although no rule's window is exhausted", i, o.T, o.Res, o.Batch, obs[i].Idx, obs[i].Cur), c)
+			return
+		}
+		if got {
+			st.pass++
+			adm = append(adm, admT{o.T, o.Res, uint64(o.Batch)})
+		} else {
+			st.block++
+			st.trigIdx[obs[i].Idx]++
+			if obs[i].Type != base.BlockTypeFlow.String() {
+				rep.Fail(c.ID, "C02_block_report", "wrong-block-type", fmt.Sprintf("op %d: block type %s", i, obs[i].Type), c)
+				return
+			}
+			if obs[i].Idx != first || obs[i].Cur != int64(firstSum) {
+				rep.Fail(c.ID, "C02_block_report", "wrong-rule-or-sum", fmt.Sprintf("op %d: reported rule %d sum %d, expected rule %d sum %d", i, obs[i].Idx, obs[i].Cur, first, firstSum), c)
+				return
+			}
+		}
+		// what the resource node reports as passed in its default window = admitted tokens only
+		lo, hi := window(ruleT{}, o.T)
+		if want := winSum(adm, o.Res, lo, hi); uint64(nodeAfter[i]) != want {
+			cl, sig := "C02_stat_record", "pass-count-differs-from-admitted"
+			if !got {
+				cl, sig = "C02_rejected_consume_nothing", "rejected-request-changed-pass-count"
+			}
+			rep.Fail(c.ID, cl, sig, fmt.Sprintf("op %d t=%d res=%d: node pass sum %d, admitted in window %d", i, o.T, o.Res, nodeAfter[i], want), c)
+			return
+		}
+	}
+	// independent arrays hold exactly the admitted tokens of their target (rejected consume nothing)
+	for _, f := range fin {
+		for _, co := range f.Ctrls {
+			if !co.Own {
+				continue
+			}
+			x := c.Rules[f.Res][co.Idx]
+			var tot int64
+			for _, row := range co.Slots {
+				tot += row[1]
+			}
+			var all uint64
+			// every slot still holds what was recorded in its bucket (slots are only reset when reused)
+			for _, row := range co.Slots {
+				st := uint64(row[0])
+				bl := uint64(co.Itv / co.N)
+				all += winSum(adm, target(x, f.Res), st, st+bl)
+			}
+			if uint64(tot) != all {
+				rep.Fail(c.ID, "C02_rejected_consume_nothing", "independent-window-differs-from-admitted", fmt.Sprintf("res %d rule %d: slots hold %d pass tokens, admitted in those buckets %d", f.Res, co.Idx, tot, all), c)
+				return
+			}
+		}
+	}
+	// every aligned window of every rule on its own resource holds at most T admitted tokens
+	for ri, rs := range c.Rules {
+		for j, x := range rs {
+			if !ruleInForce(x) || x.Assoc || math.IsNaN(x.Thr) || math.IsInf(x.Thr, 1) {
+				continue
+			}
+			I, bl, _ := ruleGeom(x.Itv)
+			for _, a := range adm {
+				if a.res != ri {
+					continue
+				}
+				top := a.t - a.t%bl
+				for s := top; s+I > top; s -= bl { // window starts s with s <= a.t < s+I
+					if tot := winSum(adm, ri, s, s+I); float64(tot) > x.Thr {
+						// a zero batch is admitted at a full window and adds nothing: tot was already there
+						rep.Fail(c.ID, "C02_no_excess", "window-total-exceeds-threshold", fmt.Sprintf("res %d rule %d: aligned window [%d,%d) holds %d admitted tokens > threshold %s", ri, j, s, s+I, tot, x.ThrS), c)
+						return
+					}
+					if s < bl {
+						break
+					}
+				}
+			}
+		}
+	}
+	nontrivial = st.pass > 0 && st.block > 0 && st.bucketCross > 0
+	return
+}
+
+// ---- Coq printing ----
+
+func coqRule(x ruleT) string {
+	return fmt.Sprintf("{| r_thr := %s; r_itv := %d; r_assoc := %s; r_ref := %d |}", emit.F(x.Thr), x.Itv, emit.B(x.Assoc), x.Ref)
+}
+
+func coqRules(rules [][]ruleT) string {
+	var rs []string
+	for ri, l := range rules {
+		if len(l) == 0 {
+			continue
+		}
+		var xs []string
+		for _, x := range l {
+			xs = append(xs, coqRule(x))
+		}
+		rs = append(rs, emit.Tuple(emit.Z(int64(ri)), emit.List(xs)))
+	}
+	return emit.List(rs)
+}
+
+func coqObs(o obsT) string {
+	switch o.Kind {
+	case "pass":
+		return "OPass"
+	case "block":
+		return fmt.Sprintf("OBlock %s %s", emit.Z(int64(o.Idx)), emit.Z(o.Cur))
+	}
+	return "ONone"
+}
+
+func coqFin(fin []finT) string {
+	var fs []string
+	for _, f := range fin {
+		var cs []string
+		for _, co := range f.Ctrls {
+			if !co.Own {
+				cs = append(cs, fmt.Sprintf("CShared %d", co.Idx))
+				continue
+			}
+			var rows []string
+			for _, row := range co.Slots {
+				rows = append(rows, emit.ListZ(row))
+			}
+			cs = append(cs, fmt.Sprintf("COwn %d %d %d %s", co.Idx, co.N, co.Itv, emit.List(rows)))
+		}
+		fs = append(fs, fmt.Sprintf("{| f_res := %d; f_ctrls := %s; f_node := %s; f_pass := %s; f_block := %s; f_conc := %s |}",
+			f.Res, emit.List(cs), emit.B(f.Node), emit.Z(f.Pass), emit.Z(f.Block), emit.Z(f.Conc)))
+	}
+	return emit.List(fs)
+}
+
+func coqCfg() string {
+	return fmt.Sprintf("{| g_n := %d; g_itv := %d; m_n := %d; m_itv := %d |}", config.GlobalStatisticSampleCountTotal(),
+		config.GlobalStatisticIntervalMsTotal(), config.MetricStatisticSampleCount(), config.MetricStatisticIntervalMs())
+}
+
+func coqSeq(c seqCase, obs []obsT, fin []finT) string {
+	var ops, os_ []string
+	for i, o := range c.Ops {
+		if o.Kind == "enter" {
+			ops = append(ops, fmt.Sprintf("Enter %d %d %d", o.T, o.Res, o.Batch))
+		} else {
+			if obs[o.Of].Kind != "pass" {
+				continue // there is no entry to exit: nothing happens
+			}
+			ops = append(ops, fmt.Sprintf("Exit %d %d %d %d", o.T, o.Res, o.Batch, c.Ops[o.Of].T))
+		}
+		os_ = append(os_, coqObs(obs[i]))
+	}
+	return fmt.Sprintf("Seq %d %s %d %s\n %s\n %s %d\n %s", c.ID, coqCfg(), c.T0, coqRules(c.Rules), emit.List(ops), emit.List(os_), c.TF, coqFin(fin))
+}
+
+// ---- concurrent admission (k-bound): goroutines parked at yield 400 ----
+
+type concCase struct {
+	ID      int      `json:"id"`
+	T0      uint64   `json:"t0"`
+	Rules   []ruleT  `json:"rules"`   // of resource 0
+	Prefill []uint32 `json:"prefill"` // sequential admissions before the schedule
+	Batches []uint32 `json:"batches"` // one per goroutine
+	Sched   []int    `json:"schedule"` // goroutine index per step; negative = advance the clock by -x ms
+}
+
+type concEv struct {
+	Kind string `json:"k"` // chk | rec
+	Tid  int    `json:"tid"`
+	T    uint64 `json:"t"`
+	B    uint32 `json:"b,omitempty"`
+}
+
+func genConc(r *rng.R, id int) concCase {
+	c := concCase{ID: id}
+	c.T0 = 1700000000000 + uint64(r.Range(0, 20000))
+	n := 1 + r.Intn(2)
+	for j := 0; j < n; j++ {
+		x := ruleT{Thr: r.PickF(1, 2, 2.5, 3, 4, 6), Itv: uint32(r.PickI(0, 0, 1000, 2000, 750, 300, 1500))}
+		x.ThrS = fstr(x.Thr)
+		c.Rules = append(c.Rules, x)
+	}
+	for i, np := 0, r.Intn(3); i < np; i++ {
+		c.Prefill = append(c.Prefill, uint32(r.PickI(1, 1, 2)))
+	}
+	k := 2 + r.Intn(3)
+	for i := 0; i < k; i++ {
+		c.Batches = append(c.Batches, uint32(r.PickI(1, 1, 1, 2, 3)))
+	}
+	var steps []int
+	for i := 0; i < k; i++ {
+		steps = append(steps, i, i)
+	}
+	for _, j := range r.Perm(len(steps)) {
+		c.Sched = append(c.Sched, steps[j])
+		if r.Chance(1, 6) {
+			c.Sched = append(c.Sched, -int(r.PickI(1, 40, 250, 499, 500, 1000)))
+		}
+	}
+	return c
+}
+
+func runConc(c concCase, clk *vclock.Clock) (evs []concEv, obs []obsT, fin []finT, tf uint64, maxPending int) {
+	clk.SetMs(c.T0)
+	if _, err := flow.LoadRules(mkRules(c.ID, [][]ruleT{c.Rules})); err != nil {
+		panic(err)
+	}
+	res := resName(c.ID, 0)
+	var ents []*base.SentinelEntry
+	tid := 1000
+	for _, b := range c.Prefill {
+		e, blk := sentinel.Entry(res, sentinel.WithBatchCount(b))
+		evs = append(evs, concEv{Kind: "chk", Tid: tid, T: c.T0, B: b}, concEv{Kind: "rec", Tid: tid, T: c.T0})
+		if blk != nil {
+			obs = append(obs, observeBlock(blk), obsT{Kind: "none"})
+		} else {
+			ents = append(ents, e)
+			obs = append(obs, obsT{Kind: "pass"}, obsT{Kind: "none"})
+		}
+		tid++
+	}
+	s := sched.New(func(id int) bool { return id == 400 })
+	defer s.Close()
+	k := len(c.Batches)
+	out := make([]obsT, k)
+	got := make([]*base.SentinelEntry, k)
+	for i := 0; i < k; i++ {
+		i := i
+		s.Spawn(func() {
+			e, blk := sentinel.Entry(res, sentinel.WithBatchCount(c.Batches[i]))
+			if blk != nil {
+				out[i] = observeBlock(blk)
+			} else {
+				out[i] = obsT{Kind: "pass"}
+				got[i] = e
+			}
+		})
+	}
+	chkPos := make([]int, k)
+	pending := 0
+	for _, t := range c.Sched {
+		if t < 0 {
+			clk.AddMs(uint64(-t))
+			continue
+		}
+		at := s.At(t)
+		l := s.Step(t)
+		now := clk.CurrentTimeMillis()
+		if at == sched.Start {
+			if l != 400 {
+				panic(fmt.Sprintf("thread %d: expected to park at 400, got %d", t, l))
+			}
+			evs = append(evs, concEv{Kind: "chk", Tid: t, T: now, B: c.Batches[t]})
+			chkPos[t] = len(obs)
+			obs = append(obs, obsT{}) // filled in when the goroutine returns
+			pending++
+			if pending > maxPending {
+				maxPending = pending
+			}
+		} else {
+			if l != sched.Done {
+				panic(fmt.Sprintf("thread %d: expected to finish, got %d", t, l))
+			}
+			evs = append(evs, concEv{Kind: "rec", Tid: t, T: now})
+			obs[chkPos[t]] = out[t]
+			obs = append(obs, obsT{Kind: "none"})
+			pending--
+		}
+	}
+	tf = clk.CurrentTimeMillis()
+	fin = finalState(c.ID, 1)
+	for _, e := range append(ents, got...) {
+		if e != nil {
+			e.Exit()
+		}
+	}
+	return
+}
+
+func monitorConc(c concCase, evs []concEv, obs []obsT, maxPending int, rep *emit.Report) (overT bool) {
+	// ledger by record time; decisions are judged against what was recorded when they were taken
+	var adm []admT
+	pend := map[int]uint32{}
+	var bmax uint64
+	for i, e := range evs {
+		switch e.Kind {
+		case "chk":
+			if uint64(e.B) > bmax {
+				bmax = uint64(e.B)
+			}
+			first, firstSum := -1, uint64(0)
+			for j, x := range c.Rules {
+				lo, hi := window(x, e.T)
+				s := winSum(adm, 0, lo, hi)
+				if exceeds(s, uint64(e.B), x.Thr) {
+					first, firstSum = j, s
+					break
+				}
+			}
+			got := obs[i].Kind == "pass"
+			if got != (first < 0) {
+				sig := "spurious-rejection"
+				cl := "C02_no_spurious_block"
+				if got {
+					sig, cl = "admitted-over-recorded-threshold", "C02_decision"
+				}
+				rep.Fail(c.ID, cl, sig, fmt.Sprintf("event %d (thread %d, t=%d, batch %d): admitted=%v, first exhausted rule %d (recorded sum %d)", i, e.Tid, e.T, e.B, got, first, firstSum), c)
+				return
+			}
+			if !got && (obs[i].Idx != first || obs[i].Cur != int64(firstSum)) {
+				rep.Fail(c.ID, "C02_block_report", "wrong-rule-or-sum", fmt.Sprintf("event %d: reported rule %d sum %d, expected rule %d sum %d", i, obs[i].Idx, obs[i].Cur, first, firstSum), c)
+				return
+			}
+			if got {
+				pend[e.Tid] = e.B
+			}
+		case "rec":
+			if b, ok := pend[e.Tid]; ok {
+				adm = append(adm, admT{e.T, 0, uint64(b)})
+				delete(pend, e.Tid)
+			}
+		}
+	}
+	k := uint64(maxPending)
+	if k < 1 {
+		k = 1
+	}
+	for j, x := range c.Rules {
+		I, bl, _ := ruleGeom(x.Itv)
+		for _, a := range adm {
+			top := a.t - a.t%bl
+			for s := top; s+I > top; s -= bl {
+				tot := winSum(adm, 0, s, s+I)
+				if float64(tot) > x.Thr {
+					overT = true
+				}
+				if float64(tot) > math.Floor(x.Thr)+float64((k-1)*bmax) {
+					rep.Fail(c.ID, "C02_k_bound", "window-total-exceeds-T-plus-(k-1)bmax", fmt.Sprintf("rule %d: aligned window [%d,%d) holds %d > %s + (%d-1)*%d", j, s, s+I, tot, x.ThrS, k, bmax), c)
+					return
+				}
+			}
+		}
+	}
+	return
+}
+
+func coqConc(c concCase, evs []concEv, obs []obsT, fin []finT, tf uint64) string {
+	var es, os_ []string
+	for i, e := range evs {
+		if e.Kind == "chk" {
+			es = append(es, fmt.Sprintf("EChk %d %d 0 %d", e.Tid, e.T, e.B))
+		} else {
+			es = append(es, fmt.Sprintf("ERec %d %d", e.Tid, e.T))
+		}
+		os_ = append(os_, coqObs(obs[i]))
+	}
+	return fmt.Sprintf("Conc %d %s %d %s\n %s\n %s %d\n %s", c.ID, coqCfg(), c.T0, coqRules([][]ruleT{c.Rules}), emit.List(es), emit.List(os_), tf, coqFin(fin))
+}
+
+const concBase = 100000
+
+func thrClass(t float64) string {
+	switch {
+	case math.IsNaN(t):
+		return "nan"
+	case math.IsInf(t, 1):
+		return "inf"
+	case t < 0:
+		return "negative_invalid"
+	case t == 0:
+		return "zero"
+	case t != math.Floor(t):
+		return "fractional"
+	case t <= 10:
+		return "small"
+	}
+	return "large"
+}
+
 func main() {
+	a := cli.Parse()
 	env.Init(env.Options{})
 	clk := vclock.New(1700000000000)
 	clk.Install()
-	_, err := flow.LoadRules([]*flow.Rule{{ID: "0", Resource: "A", Threshold: 2, StatIntervalInMs: 750, RelationStrategy: flow.AssociatedResource, RefResource: "B"}})
-	fmt.Println(err)
-	for i := 0; i < 4; i++ {
-		e, b := sentinel.Entry("A")
-		fmt.Println("A", b == nil)
-		if e != nil {
-			e.Exit()
+	root := rng.New(a.Seed)
+	rep := emit.NewReport("C02", a.Seed, a.Tier)
+	rep.Rule = "sequential: 1-3 resources, 0-3 reject/direct rules each (thresholds 0, fractional, small, large, invalid, Inf, NaN; StatIntervalInMs 0,1000,2000,2500,250,300,750,20000,1500,3000,500,5000,10000,1,7; associated-resource rules), 8-45 Entry/Exit operations under the virtual clock with time steps 0, small, to bucket/window boundaries -1/0/+1, whole windows, idle gaps longer than the 10 s array; concurrent: k=2-4 goroutines parked at the chain yield between rule check and statistics, random interleavings with clock ticks. Non-trivial = at least one admission, one rejection and one 500 ms bucket boundary crossed (sequential) / at least two requests simultaneously inside the admission path (concurrent); distinct by full input."
+	nSeqCorr := a.Pick(a.N, 150, 3000)
+	nConcCorr := a.Pick(a.N, 40, 800)
+	nSeqMon := a.Pick(a.Mon, 3000, 60000)
+	nConcMon := a.Pick(a.Mon, 400, 6000)
+	if a.Search {
+		nSeqCorr, nConcCorr = 0, 0
+		nSeqMon *= 5
+		nConcMon *= 5
+	}
+	var sh *emit.Shards
+	if a.Only < 0 && !a.Search {
+		var err error
+		sh, err = emit.NewShards(a.Out, "Corr.Run_C02", a.Shards, "Open Scope Z_scope.")
+		if err != nil {
+			panic(err)
 		}
 	}
-	clk.AddMs(5000)
-	for i := 0; i < 4; i++ {
-		e, b := sentinel.Entry("B")
-		fmt.Println("B", b == nil)
-		if e != nil {
-			e.Exit()
+	dist := emit.NewDistinct()
+	runOneSeq := func(id int, corr bool) {
+		c := genSeq(root.Fork(uint64(id)), id)
+		obs, nodeAfter, fin := runSeq(c, clk)
+		rep.Evaluations++
+		nt, st := monitorSeq(c, obs, nodeAfter, fin, rep)
+		if nt {
+			b, _ := json.Marshal(c)
+			dist.Add(string(b))
+		}
+		rep.Count("seq_cases", 1)
+		rep.Count("outcome_pass", st.pass)
+		rep.Count("outcome_block", st.block)
+		rep.Count("bucket_boundaries_crossed", st.bucketCross)
+		rep.Count("idle_gaps_ge_array_interval", st.cycleCross)
+		for idx, n := range st.trigIdx {
+			rep.Count("triggered_rule_"+strconv.Itoa(idx), n)
+		}
+		if c.T0 < 100000 {
+			rep.Count("cases_near_time_zero", 1)
+		}
+		for _, rs := range c.Rules {
+			rep.Count("rules_per_resource_"+strconv.Itoa(len(rs)), 1)
+			for _, x := range rs {
+				rep.Count("threshold_"+thrClass(x.Thr), 1)
+				_, _, ind := ruleGeom(x.Itv)
+				switch {
+				case x.Itv == 0 || x.Itv == 1000:
+					rep.Count("stat_default_view", 1)
+				case ind:
+					rep.Count("stat_independent_window", 1)
+				default:
+					rep.Count("stat_derived_view", 1)
+				}
+				if x.Assoc {
+					rep.Count("rules_associated", 1)
+					if ind {
+						rep.Count("rules_associated_independent", 1)
+					}
+				}
+			}
+		}
+		for _, o := range c.Ops {
+			rep.Count("op_"+o.Kind, 1)
+			if o.Kind == "enter" {
+				switch {
+				case o.Batch == 0:
+					rep.Count("batch_zero", 1)
+				case o.Batch == 1:
+					rep.Count("batch_one", 1)
+				case o.Batch > 100:
+					rep.Count("batch_large", 1)
+				default:
+					rep.Count("batch_small", 1)
+				}
+			}
+		}
+		if corr && sh != nil {
+			sh.Add(id, coqSeq(c, obs, fin))
+			rep.CorrCases++
+			rep.CaseInputs[strconv.Itoa(id)] = c
+			rep.Sample(map[string]interface{}{"input": c, "observed": obs})
+		}
+		if a.Only >= 0 {
+			out, _ := json.MarshalIndent(map[string]interface{}{"input": c, "observed": obs, "node_pass_after_op": nodeAfter, "final": fin}, "", " ")
+			fmt.Println(string(out))
+			fmt.Println(strings.ReplaceAll(coqSeq(c, obs, fin), "\n", " "))
 		}
 	}
-	e, b := sentinel.Entry("A")
-	fmt.Println("A after B x4", b == nil)
-	if e != nil {
-		e.Exit()
+	runOneConc := func(id int, corr bool) {
+		c := genConc(root.Fork(uint64(id)), id)
+		evs, obs, fin, tf, maxP := runConc(c, clk)
+		rep.Evaluations++
+		rep.Count("conc_cases", 1)
+		rep.Count("conc_events", len(evs))
+		if maxP >= 2 {
+			b, _ := json.Marshal(c)
+			dist.Add(string(b))
+			rep.Count("conc_overlapping", 1)
+		}
+		if monitorConc(c, evs, obs, maxP, rep) {
+			rep.Count("conc_window_over_threshold_within_k_bound", 1)
+		}
+		if corr && sh != nil {
+			sh.Add(id, coqConc(c, evs, obs, fin, tf))
+			rep.CorrCases++
+			rep.CaseInputs[strconv.Itoa(id)] = c
+			if id == concBase {
+				rep.Sample(map[string]interface{}{"input": c, "events": evs, "observed": obs})
+			}
+		}
+		if a.Only >= 0 {
+			out, _ := json.MarshalIndent(map[string]interface{}{"input": c, "events": evs, "observed": obs, "final": fin, "max_pending": maxP}, "", " ")
+			fmt.Println(string(out))
+			fmt.Println(strings.ReplaceAll(coqConc(c, evs, obs, fin, tf), "\n", " "))
+		}
+	}
+	if a.Only >= 0 {
+		if a.Only >= concBase {
+			runOneConc(a.Only, false)
+		} else {
+			runOneSeq(a.Only, false)
+		}
+		for _, f := range rep.MonitorFailures {
+			fmt.Printf("MONITOR-FAIL clause=%s signature=%s %s\n", f.Clause, f.Signature, f.Detail)
+		}
+		return
+	}
+	for id := 0; id < nSeqMon; id++ {
+		runOneSeq(id, id < nSeqCorr)
+	}
+	for j := 0; j < nConcMon; j++ {
+		runOneConc(concBase+j, j < nConcCorr)
+	}
+	rep.DistinctNontrivial = dist.N()
+	rep.Consts["config.GlobalStatisticSampleCountTotal"] = config.GlobalStatisticSampleCountTotal()
+	rep.Consts["config.GlobalStatisticIntervalMsTotal"] = config.GlobalStatisticIntervalMsTotal()
+	rep.Consts["config.MetricStatisticSampleCount"] = config.MetricStatisticSampleCount()
+	rep.Consts["config.MetricStatisticIntervalMs"] = config.MetricStatisticIntervalMs()
+	rep.Consts["flow.RuleCheckSlotOrder"] = flow.RuleCheckSlotOrder
+	rep.Consts["flow.StatSlotOrder"] = flow.StatSlotOrder
+	rep.Consts["stat.StatSlotOrder"] = stat.StatSlotOrder
+	if sh != nil {
+		rep.Shards = sh.Close()
+	}
+	if err := rep.Write(a.Out); err != nil {
+		fmt.Fprintln(os.Stderr, err)
+		os.Exit(2)
 	}
 }
